@@ -965,3 +965,47 @@ Proof. cbn [run]. apply (on_ok_rule _ _ MaxSlice); [unfold MaxSlice; lia|]. appl
 Theorem stream_alloc_refuted_thr :
   exists s, bytes_ok s = true /\ alloc (run DBytesS s) > thr (len s).
 Proof. exists [5;2;0;0;0]. split; vm_compute; reflexivity. Qed.
+
+(* ===================================================================================
+   8. transform.B64.Read: given the contract of encoding/base64 (it answers an error or at most
+      DecodedLen(len p) bytes and does not panic), the shift loop and the final reslice stay
+      inside the buffer, and the buffer is 3/4 of the input
+   =================================================================================== *)
+Lemma len_repeat (x : Z) n : len (repeat x n) = Z.of_nat n.
+Proof. unfold len. rewrite repeat_length. reflexivity. Qed.
+
+Lemma shift_loop_ok k : forall o x b, 0 <= x -> x + Z.of_nat k <= len o ->
+  exists o', shift_loop k o x b = Ok o' /\ len o' = len o.
+Proof.
+  induction k as [|k IH]; intros o x b Hx Hk; cbn [shift_loop].
+  - exists o. split; reflexivity.
+  - destruct (idx_some o x ltac:(lia)) as (v & Ev & _). rewrite Ev. cbn [bind].
+    assert (Hl : len (take x o ++ u8 (v - b) :: drop (x + 1) o) = len o).
+    { rewrite len_app, len_cons, len_take', len_drop by lia. lia. }
+    destruct (IH (take x o ++ u8 (v - b) :: drop (x + 1) o) (x + 1) b ltac:(lia) ltac:(lia)) as (o' & E & Hl').
+    exists o'. split; [exact E | lia].
+Qed.
+
+Theorem b64_read_spec shift dec p :
+  dec <> Panic -> (forall d, dec = Ok d -> len d <= b64_decoded_len (len p)) ->
+  np (b64_read shift dec p) /\ alloc (b64_read shift dec p) <= len p.
+Proof.
+  intros Hnp Hlen. unfold b64_read. pose proof (len_nonneg p).
+  assert (Hn : 0 <= b64_decoded_len (len p) <= len p) by (unfold b64_decoded_len; lia).
+  eapply weaken; [apply (mk_rule _ _ 0); [lia|] | lia].
+  destruct dec as [d|e|]; [|apply err_rule; lia | exfalso; apply Hnp; reflexivity].
+  specialize (Hlen d eq_refl). pose proof (len_nonneg d).
+  set (blen := Z.max (b64_decoded_len (len p)) 512).
+  assert (Hb : len d <= blen) by (unfold blen; lia).
+  set (o := take blen (d ++ repeat 0 (Z.to_nat (blen - len d)))).
+  assert (Ho : len o = blen).
+  { unfold o. apply len_take'. rewrite len_app, len_repeat. lia. }
+  assert (Hs : exists o', (if shift =? 0 then Ok o else shift_loop (Z.to_nat (len d)) o 0 shift) = Ok o' /\ len o' = blen).
+  { destruct (shift =? 0).
+    - exists o. split; [reflexivity | exact Ho].
+    - destruct (shift_loop_ok (Z.to_nat (len d)) o 0 shift ltac:(lia) ltac:(lia)) as (o' & E & Hl).
+      exists o'. split; [exact E | lia]. }
+  destruct Hs as (o' & -> & Hl'). rewrite abind_lift_ok.
+  destruct (slice_ok o' 0 (len d) ltac:(lia) ltac:(lia) ltac:(lia)) as (w & -> & _). rewrite abind_lift_ok.
+  apply ret_rule; lia.
+Qed.
